@@ -81,7 +81,7 @@ REAL_CMDS = [
 ]
 
 
-def real_stop_stream(chk):
+def real_stop_stream(chk, prop="C05"):
     """real `sh` steps under the real agent and the real command executor (process groups, pipes): stop via API or OS signal;
     the run must end within MaxCleanUpTime (+ the 3 s polling granularity of Agent.signal), be recorded canceled, run
     onCancel then onExit, and leave no step process behind"""
@@ -95,6 +95,10 @@ def real_stop_stream(chk):
         for via in (("api", "os") if chk.tier == "thorough" else (chk.rng.choice(["api", "os"]),)):
             cases.append({"id": "rs%d" % k, "cmds": [cmd] + (["sleep 20"] if chk.rng.random() < 0.5 else []), "sigs": [sig, ""], "stopVia": via,
                           "cleanupMs": 1500, "delayMs": chk.rng.choice([300, 500, 800]), "kind": name}); k += 1
+    # the step's signalOnStop as the LOADER reads it: spellings the loader accepts must be delivered at the stop
+    for sp in ["SIGUSR1", "usr1", "USR1", "sigusr1", "Sigusr1", "10", "SIGUSR1 "]:
+        cases.append({"id": "rs%d" % k, "cmds": ["trap 'exit 0' USR1; sleep 30 & wait"], "sigs": [""], "stopVia": "api", "cleanupMs": 4000,
+                      "delayMs": 400, "kind": "yaml-signalOnStop", "yamlSig": sp}); k += 1
     def one(c):
         p = subprocess.run([binp, "realstop"], input=json.dumps(c) + "\n", stdout=subprocess.PIPE, stderr=subprocess.PIPE, text=True, timeout=120)
         try:
@@ -109,6 +113,14 @@ def real_stop_stream(chk):
         chk.evaluations += 1; st["cases"] += 1; st["kinds"][c["kind"]] = st["kinds"].get(c["kind"], 0) + 1
         chk.nontrivial.add("real-stop:" + c["kind"] + c["stopVia"])
         bad = None
+        if r.get("rejected"):
+            st["rejected_signal_spellings"] = st.get("rejected_signal_spellings", []) + [c.get("yamlSig")]
+            continue
+        if c.get("yamlSig") and 0 <= r.get("endedMs", -1) and r["endedMs"] > 1500 and prop == "C05":
+            chk.violation("C05:real-stop:configured-stop-signal-not-delivered:spelling-accepted-by-the-loader",
+                          "signalOnStop %r is accepted by the loader (stored as %r); the step exits at once on SIGUSR1, yet the run ended only %d ms after the stop" % (
+                              c["yamlSig"], r.get("stored"), r["endedMs"]), {"real_stop_case": c, "result": r})
+            continue
         if r.get("panic"):
             bad = ("real-stop:agent-crashed", r["panic"][:200])
         elif r.get("endedMs", -1) < 0:
@@ -123,8 +135,11 @@ def real_stop_stream(chk):
                 bad = ("real-stop:wrong-handlers-after-stop:" + c["kind"], "handlers run: %r" % r.get("handlers"))
             elif r.get("left", 0) != 0:
                 bad = ("real-stop:step-process-survives-the-run:" + c["kind"], "%d processes of the step still alive 300 ms after the run ended" % r["left"])
+        if bad and prop != "C05" and not (bad[0].startswith("real-stop:wrong-handlers-after-stop") or
+                                          bad[0].startswith("real-stop:stopped-run-not-recorded-canceled")):
+            bad = None          # C04 judges the outcome and the handlers of the stopped run only
         if bad:
-            chk.violation("C05:" + bad[0], bad[1], {"real_stop_case": c, "result": r})
+            chk.violation(prop + ":" + bad[0], bad[1], {"real_stop_case": c, "result": r})
     chk.stats["real_stop"] = st
 
 
@@ -147,7 +162,9 @@ def run(chk, replay):
         return re.findall(r"^theorem tie_(\w+) ", open(p).read(), re.M) if os.path.exists(p) else []
     chk.trusted = common.TRUSTED_COMMON + ["quiescence discipline of the scheduler harness (one completion released at a time)"]
     chk.assumptions = [sched.NOTES.get(PROP, "")]
-    common.lean_obligations(chk, "BdModel/Props/%s.lean" % PROP, {"Sched": sched.SCHED_TIE, "Agent": tie_names("Agent"), "Exec": tie_names("Exec")}, extra_targets=["BdModel.Sched.Tables"])
+    common.lean_obligations(chk, "BdModel/Props/%s.lean" % PROP, {"Sched": sched.SCHED_TIE, "Agent": tie_names("Agent"), "Exec": tie_names("Exec"),
+                             # the stop signal of a step is the loader's reading of `signalOnStop` (parseMiscs validates the name)
+                             "Load": ["h_load_parseMiscs"]}, extra_targets=["BdModel.Sched.Tables"])
     sched.run_stream(chk, PROP, replay)
     agent_stop_stream(chk)
     real_stop_stream(chk)
